@@ -351,6 +351,53 @@ func runC04(ctx *report.Ctx) {
 		})
 	}
 
+	// host-retype: the value shown is the value the storer holds now: the host overwrites the variable between two lines,
+	// also with a value of another type (default in-memory storer, host-owned); a line and an option label show the new one
+	part(ctx, "host-retype", -1, func(c *explore.Chooser) {
+		vals := []yc.Value{yc.Num(20), yc.Num(-0.5), yc.Bool(false), yc.Bool(true), yc.Str("txt"), yc.Str("")}
+		v1 := vals[c.Choose(len(vals), "first")]
+		v2 := vals[c.Choose(len(vals), "second")]
+		v3 := vals[c.Choose(len(vals), "third")]
+		if !c.Mine() {
+			return
+		}
+		show := func(tag string) *yc.LineSpec {
+			return &yc.LineSpec{Parts: []yc.Part{{Src: tag + "=", Want: tag + "="}, {E: yc.EVariable("v")}, {Src: ".", Want: "."}}}
+		}
+		p := &yc.Program{Nodes: []*yc.Node{{Title: "A", Body: []*yc.Stmt{yc.LineOf(show("a")), yc.LineOf(show("b")),
+			yc.Options(&yc.Option{Line: show("o1")}, &yc.Option{Line: show("o2"), Body: []*yc.Stmt{yc.LineOf(show("c"))}}), yc.LineOf(show("d"))}}}}
+		srcs := yc.Render(p, nil)
+		w := fmt.Sprintf("host-owned in-memory storer: $v = %s at creation, %s after the first line, %s after the second; every line and option label shows {$v}", v1, v2, v3)
+		ctx.Current("host-retype: " + w)
+		write := func(st variable.Storer, m *yc.Machine, v yc.Value) {
+			switch v.K {
+			case yc.VNum:
+				st.SetNumberValue("v", v.N)
+			case yc.VBool:
+				st.SetBooleanValue("v", v.B)
+			default:
+				st.SetStringValue("v", v.S)
+			}
+			m.Store["v"] = v
+		}
+		mm, st := yc.Walk(p, srcs, &yc.HostSpec{Vars: map[string]yc.Value{"v": v1}}, yc.WalkOpts{MaxSteps: 8, StrictErrors: true, CompareStore: true,
+			Host: func(ch *explore.Chooser, step int, m *yc.Machine, st variable.Storer) {
+				switch step {
+				case 0:
+					write(st, m, v2)
+				case 1:
+					write(st, m, v3)
+				}
+			}, DevBudget: -1})
+		ctx.AddEvals(st.Paths, st.Paths)
+		ctx.AddStates(st.Steps)
+		ctx.AddTransitions(st.Steps)
+		ctx.AddTraces(st.Paths)
+		if mm != nil {
+			ctx.Violation(report.Violation{Clause: "host-retype-" + mm.Clause, Witness: w, Detail: fmt.Sprintf("%s; observed trace %v", mm.Detail, mm.Trace),
+				Choices: c.Choices(), Part: "host-retype", Extra: map[string]any{"scripts": srcs}})
+		}
+	})
 	part(ctx, "after-error", -1, func(c *explore.Chooser) {
 		f := failing[c.Choose(len(failing), "failing-line")]
 		asOption := c.Choose(2, "failing-as-option") == 1
